@@ -672,20 +672,22 @@ def glue_contextlib() -> None:
                 context.children = children
                 # A failure to describe one registration is no reason to drop the
                 # ones registered after it
+                # (nor for losing what a hook had to complain about)
                 try:
-                    try:
-                        # (An exit stack can have methods of itself registered on
-                        # it - directly, or through another stack that it holds -
-                        # and must not be unfolded inside itself without end.)
-                        if not any(child_context.obj is outer for outer in in_progress):
-                            _extract.fill_context(child_context)
-                    finally:
-                        arg = child_context.description
-                        if arg is None and describe_arg is not None:
-                            arg = describe_arg()
-                        child_context.description = (
-                            f"{tag}{stackname}.{method}({arg or '...'})"
-                        )
+                    # (An exit stack can have methods of itself registered on
+                    # it - directly, or through another stack that it holds -
+                    # and must not be unfolded inside itself without end.)
+                    if not any(child_context.obj is outer for outer in in_progress):
+                        _extract.fill_context(child_context)
+                except Exception as ex:
+                    errors.append(ex)
+                try:
+                    arg = child_context.description
+                    if arg is None and describe_arg is not None:
+                        arg = describe_arg()
+                    child_context.description = (
+                        f"{tag}{stackname}.{method}({arg or '...'})"
+                    )
                 except Exception as ex:
                     errors.append(ex)
         finally:
